@@ -25,7 +25,10 @@ PROPERTY = 'C04'
 EXIT_CODES = (0, 1, 2, 127, 255)
 # 'result-files-exist': [setup] leaves files named stdout / stderr / exit-code in result/ (round 6: C04-r6m1 opened the result files of
 # the action in append mode)
-MISBEHAVIOURS = ('none', 'chdir-home', 'chdir-tmp', 'read-only-files', 'environ', 'rm-cwd', 'result-files-exist')
+# 'entries-in-sandbox-root': [setup] creates a file and a non-empty directory directly in the sandbox root, beside act/ (round 7:
+# C04-r7m1 removed only the four documented sub directories and then the root if it was empty)
+MISBEHAVIOURS = ('none', 'chdir-home', 'chdir-tmp', 'read-only-files', 'environ', 'rm-cwd', 'result-files-exist',
+                 'entries-in-sandbox-root')
 
 REAL = (
     'exactly_lib.execution.partial_execution.execution.execute',
@@ -212,6 +215,10 @@ def run(fault_idx: int, kind: int, keep: bool, xsel: int, mis: int) -> Facts:
                     d[f.env_marker] = '1'
                     settings.set_environ(d)
                     settings.environ()[f.env_marker + '2'] = '2'
+            elif misb == 'entries-in-sandbox-root':
+                (root / 'extra.txt').write_text('x')
+                (root / 'extra-dir').mkdir()
+                (root / 'extra-dir' / 'f').write_text('y')
             elif misb == 'result-files-exist':
                 (root / 'result' / 'stdout').write_text('LEFTOVER-OUT;')
                 (root / 'result' / 'stderr').write_text('LEFTOVER-ERR;')
@@ -261,7 +268,9 @@ def k1_lifecycle(kind: int, keep: bool, xsel: int, mis: int) -> bool:
         ok = ok and f.post_sds_steps > 0
         if f.keep or bug == 'never-removed':
             # left intact, and its path reported
-            ok = ok and f.sandbox_listing[0] == ['act', 'internal', 'result', 'tmp']
+            # --keep: the sandbox is left intact - also what the test itself put into its root
+            extra = ['extra-dir', 'extra.txt'] if (f.mis == 'entries-in-sandbox-root' and ('setup', 'main', 0) in r.trace) else []
+            ok = ok and f.sandbox_listing[0] == sorted(['act', 'internal', 'result', 'tmp'] + extra)
             ok = ok and r.result.has_sds and str(r.result.sds.root_dir) == r.sandbox_roots[0]
         else:
             ok = ok and (f.sandbox_listing[0] is None)
